@@ -632,11 +632,14 @@ Fixpoint ltrace (V : pyval -> res pyval) (tg : N) (p t : list pyval) (ops : list
       end
   end.
 
-(* a case: tag, item-validator table, raw initial value assigned to the field, operations *)
-Definition run_list (tg : N) (tbl : vtable) (init : list pyval) (ops : list lop) : pyval :=
+(* a case: tag, path of the list field, item-validator table, raw initial value assigned to the field,
+   operations.  ListProxy raises the item field's own (plain) exception: in-place operations report it as
+   it is; the whole-value assignment `cfg.l = [...]` goes through Config._set_value, which wraps every
+   plain exception of a leaf into the validation error with the field's path (C15_leaf_rejection_path). *)
+Definition run_list (tg : N) (path : str) (tbl : vtable) (init : list pyval) (ops : list lop) : pyval :=
   match p_init (table_V tbl) false init with
   | Ok s => PList 0 (PList tg s :: ltrace (table_V tbl) tg s s ops)
-  | Err e => PTuple [o_str "init"; o_kind e]
+  | Err e => PTuple [o_str "init"; o_errk (EValidation path)]
   | Unmodelled => o_str "unmodelled"
   end.
 
